@@ -15,10 +15,10 @@ pub mod a2 {
       relation r4(i64, i64);
       relation r5(i64, i64);
       relation r6(i64, i64);
-      relation r7(i64);
+      relation r7(i64, i64);
       relation r8(i64);
-      relation r9(i64);
-      relation r10(i64);
+      relation r9(i64, i64);
+      relation r10(i64, i64);
       r2(1, 2) <-- r1(2, 3);
       r3(v2) <-- r2(v0, v1), r3(v2) if ((*v2) <= 4);
       r2(v0, v0) <-- r3(v0);
@@ -26,11 +26,11 @@ pub mod a2 {
       r4(v0, v8) <-- if let Some(v9) = Some(0), r5(v0, v1), r2(v1, v9) let v8 = ((*v0) + 1);
       r5(v0, ((*v1) + 1)) <-- let v0 = 4, r2(v1, (v0 + 0)), r4(v0, 3), r0(v2, v0), if ((*v1) < 6);
       r4(3, v1) <-- r3(0), r1(v0, v1);
-      r6(v0, (v21 as i64)) <-- r0(v0, v1), agg v21 = count() in r1((*v1), _);
-      r7(v0) <-- r2(v0, v1), agg v21 = sum(v20) in r1(_, v20);
-      r8(v1) <-- r5(v0, v1), agg v21 = count() in r7(_);
-      r9(v1) <-- r4(v0, v1), agg v21 = max(v20) in r7(v20);
-      r10(v0) <-- r3(v0), agg v21 = max(v20) in r9(v20);
+      r6(v0, (v21 as i64)) <-- r0(v0, v1), agg v21 = count() in r1(_, _);
+      r7(v0, v21) <-- r2(v0, v1), r3(v1), r0(v1, v1), agg v21 = sum(v20) in r1(v20, (*v1));
+      r8(v1) <-- r0(v0, v1), agg v21 = count() in r3(_);
+      r9(v0, v21) <-- r3(v0), r5(v31, v31), agg v21 = sum(v20) in r6(v20, (*v31));
+      r10(v1, v21) <-- r2(v0, v1), agg v21 = sum(v20) in r7((*v1), v20);
    }
    pub struct Inst { p: Prog, pool: Option<ascent::rayon::ThreadPool> }
    pub fn make(pool: Option<usize>) -> Box<dyn Driver> {
@@ -48,15 +48,16 @@ pub mod a2 {
          4 => { let v: Vec<(i64,i64,)> = parse_rows(rows)?; if append { self.p.r4.extend(v) } else { self.p.r4 = v } },
          5 => { let v: Vec<(i64,i64,)> = parse_rows(rows)?; if append { self.p.r5.extend(v) } else { self.p.r5 = v } },
          6 => { let v: Vec<(i64,i64,)> = parse_rows(rows)?; if append { self.p.r6.extend(v) } else { self.p.r6 = v } },
-         7 => { let v: Vec<(i64,)> = parse_rows(rows)?; if append { self.p.r7.extend(v) } else { self.p.r7 = v } },
+         7 => { let v: Vec<(i64,i64,)> = parse_rows(rows)?; if append { self.p.r7.extend(v) } else { self.p.r7 = v } },
          8 => { let v: Vec<(i64,)> = parse_rows(rows)?; if append { self.p.r8.extend(v) } else { self.p.r8 = v } },
-         9 => { let v: Vec<(i64,)> = parse_rows(rows)?; if append { self.p.r9.extend(v) } else { self.p.r9 = v } },
-         10 => { let v: Vec<(i64,)> = parse_rows(rows)?; if append { self.p.r10.extend(v) } else { self.p.r10 = v } },
+         9 => { let v: Vec<(i64,i64,)> = parse_rows(rows)?; if append { self.p.r9.extend(v) } else { self.p.r9 = v } },
+         10 => { let v: Vec<(i64,i64,)> = parse_rows(rows)?; if append { self.p.r10.extend(v) } else { self.p.r10 = v } },
             _ => return None,
          }
          Some(())
       }
       fn run(&mut self) { match &self.pool { Some(pl) => { let p = &mut self.p; pl.install(|| p.run()) }, None => self.p.run() } }
+      fn run_here(&mut self) { self.p.run() }
       fn run_timeout(&mut self, k: usize) -> Option<bool> { let _ = k; None }
       fn dump(&self) -> String { vec![dump_rel(0, self.p.r0.iter().map(Row::render).collect()), dump_rel(1, self.p.r1.iter().map(Row::render).collect()), dump_rel(2, self.p.r2.iter().map(Row::render).collect()), dump_rel(3, self.p.r3.iter().map(Row::render).collect()), dump_rel(4, self.p.r4.iter().map(Row::render).collect()), dump_rel(5, self.p.r5.iter().map(Row::render).collect()), dump_rel(6, self.p.r6.iter().map(Row::render).collect()), dump_rel(7, self.p.r7.iter().map(Row::render).collect()), dump_rel(8, self.p.r8.iter().map(Row::render).collect()), dump_rel(9, self.p.r9.iter().map(Row::render).collect()), dump_rel(10, self.p.r10.iter().map(Row::render).collect())].join(" | ") }
       fn iters(&self) -> String { format!("iters {}", self.p.scc_iters.iter().map(|x| x.to_string()).collect::<Vec<_>>().join(" ")) }
@@ -86,8 +87,8 @@ pub mod a10 {
       r2(v2, ((*v0) + 1)) <-- r1(v0, v1), r2(((*v0) + 0), v2), r3(v1, v0) if ((*v0) != 3), if ((*v0) < 6);
       r2(2, v1) <-- if let Some(v0) = None::<i64>, r1(v0, v1), r1(v2, v3), r1((v0 + 0), v4), if let Some(v5) = Some(std::cmp::max((*v4), 1));
       r2(v1, v2) <-- if let Some(v0) = Some(0), r3(v1, v0) if (v0 <= 5), r2(v2, ((*v1) + 1)), r3(v3, v4);
-      r4(v1, 2) <-- r1(v0, v1), agg () = not() in r3((*v1), 3);
-      r5(v1) <-- r2(v0, v1), agg v21 = count() in r2((*v1), (*v1));
+      r4(v1, 2) <-- r1(v0, v1), agg () = not() in r3(_, 3);
+      r5(v1) <-- r2(v0, v1), agg v21 = count() in r2(_, (*v1));
    }
    pub struct Inst { p: Prog, pool: Option<ascent::rayon::ThreadPool> }
    pub fn make(pool: Option<usize>) -> Box<dyn Driver> {
@@ -109,6 +110,7 @@ pub mod a10 {
          Some(())
       }
       fn run(&mut self) { match &self.pool { Some(pl) => { let p = &mut self.p; pl.install(|| p.run()) }, None => self.p.run() } }
+      fn run_here(&mut self) { self.p.run() }
       fn run_timeout(&mut self, k: usize) -> Option<bool> { let _ = k; None }
       fn dump(&self) -> String { vec![dump_rel(0, self.p.r0.iter().map(Row::render).collect()), dump_rel(1, self.p.r1.iter().map(Row::render).collect()), dump_rel(2, self.p.r2.iter().map(Row::render).collect()), dump_rel(3, self.p.r3.iter().map(Row::render).collect()), dump_rel(4, self.p.r4.iter().map(Row::render).collect()), dump_rel(5, self.p.r5.iter().map(Row::render).collect())].join(" | ") }
       fn iters(&self) -> String { format!("iters {}", self.p.scc_iters.iter().map(|x| x.to_string()).collect::<Vec<_>>().join(" ")) }
